@@ -64,6 +64,28 @@ def showOutcome (f32 : Bool) : Outcome Val → String
 
 def allocBytes : Nat := 1048576
 
+/-- round-trip datasets: the formula shared with harness/c19.cpp (`rtCell`, `rtLabel`) -/
+def rtCell (seed e j : Nat) : Val :=
+  let k : Int := ((seed * 7 + e * 3 + j * 5) % 11 : Nat) - 5
+  Val.mk (decide (k < 0)) k.natAbs (-2)
+def rtLabel (seed e : Nat) : Nat := e % (2 + seed % 2)
+
+/-- compare what the model importer returns with the exported dataset (-0 = 0 as in C++) -/
+def normRow : Row Val → Row Val
+  | .dense xs => .dense (xs.map fun v => match v with | .fin _ 0 _ => Val.zero | v => v)
+  | r => r
+def normLabels : Labels Val → Labels Val
+  | .reg ls => .reg (ls.map (·.map fun v => match v with | .fin _ 0 _ => Val.zero | v => v))
+  | l => l
+
+def rtVerdict (o : Outcome Val) (rows : List (Row Val)) (labels : Labels Val) : String :=
+  match o with
+  | .ok d =>
+    let same := d.rows.map normRow == rows.map normRow && decide (normLabels d.labels = normLabels labels)
+    (if same then "rt same" else "rt differs") ++ s!" elements={d.rows.length} batches=[{sepBy "," (d.batches.map toString)}]"
+  | .error => "rt shark-exception"
+  | o => "rt " ++ showOutcome false o
+
 def step (line : String) : String :=
   let toks := (line.splitOn " ").filter (· ≠ "")
   match toks with
@@ -101,6 +123,40 @@ def step (line : String) : String :=
         match (if lp == "F" then Csv.readPointsFirst bytes sep comment else Csv.readPointsLast bytes sep comment) with
         | none => "shark-exception"
         | some pts => showOutcome f32 (Csv.importClass pts maxB)
+    | _, _, _, _ => "bad-op"
+  | ["rt", "csv", kind, lp, nout, sep, maxB, dim, seed, n] =>
+    match nout.toNat?, sep.toNat?, maxB.toNat?, dim.toNat?, seed.toNat?, n.toNat? with
+    | some nout, some sep, some maxB, some dim, some seed, some n =>
+      let sep := Char.ofNat sep
+      let first := lp == "F"
+      let ins := (List.range n).map fun e => (List.range dim).map fun j => rtCell seed e j
+      if kind == "c" then
+        let pts := (List.zip (List.range n) ins).map fun q => (rtLabel seed q.1, q.2)
+        let text := Export.csvClass pts first sep
+        match (if first then Csv.readPointsFirst text sep '#' else Csv.readPointsLast text sep '#') with
+        | none => "rt shark-exception"
+        | some back => rtVerdict (Csv.importClass back maxB) (pts.map fun p => Row.dense p.2) (.cls (pts.map (·.1)))
+      else
+        let outs := (List.range n).map fun e => (List.range nout).map fun j => rtCell (seed + 1) e j
+        let text := Export.csvRegr (List.zip ins outs) first sep
+        match Csv.readRows text sep '#' with
+        | none => "rt shark-exception"
+        | some back => rtVerdict (Csv.importRegr back first nout maxB) (ins.map Row.dense) (.reg outs)
+    | _, _, _, _, _, _ => "bad-op"
+  | ["rt", "svm", _fmt, lab, bs, dim, seed, n] =>
+    match bs.toNat?, dim.toNat?, seed.toNat?, n.toNat? with
+    | some bs, some dim, some seed, some n =>
+      let ins := (List.range n).map fun e => (List.range dim).map fun j => rtCell seed e j
+      let cfg : Svm.Cfg := { sparse := false, cls := lab == "c", dims := dim, bs := bs, allocLimit := allocBytes / 8 }
+      let labs := (List.range n).map (rtLabel seed)
+      let regs := (List.range n).map fun e => rtCell (seed + 1) e 0
+      let text := if lab == "c" then Export.svmClass (List.zip labs ins) else Export.svmRegr (List.zip regs ins)
+      match svmRecords text with
+      | none => "rt shark-exception"
+      | some recs =>
+        let recs := recs.map fun r => ({ label := r.1, feats := r.2 } : Svm.Rec Val)
+        rtVerdict (Svm.importRepaired Val.zero Val.toInt32 cfg recs) (ins.map Row.dense)
+          (if lab == "c" then .cls labs else .reg (regs.map fun v => [v]))
     | _, _, _, _ => "bad-op"
   | [] => ""
   | _ => "bad-op"
